@@ -99,6 +99,7 @@ func main() {
 	mapRanges := 0
 	blockingCalls := 0
 	clockCalls := 0
+	workSites := 0
 	for _, fi := range files {
 		fi := fi
 		var funcStack []string
@@ -117,7 +118,12 @@ func main() {
 			id := len(siteTable)
 			pos := fset.Position(s.Pos())
 			siteTable = append(siteTable, fmt.Sprintf("%s:%d:%s", fi.name, pos.Line, fn))
-			fi.edits = append(fi.edits, edit{off: offOf(s.Pos()), end: offOf(s.Pos()), text: fmt.Sprintf("verifsim.Y(%d); ", id), prio: 1})
+			text := fmt.Sprintf("verifsim.Y(%d); ", id)
+			if w := workCost(fi, s, info, offOf); w != "" {
+				text += "verifsim.W(" + w + "); "
+				workSites++
+			}
+			fi.edits = append(fi.edits, edit{off: offOf(s.Pos()), end: offOf(s.Pos()), text: text, prio: 1})
 			fi.sites++
 		}
 		labeled := map[ast.Stmt]bool{}
@@ -238,7 +244,7 @@ func main() {
 			die("%v", err)
 		}
 	}
-	fmt.Printf("{\"sites\":%d,\"map_ranges\":%d,\"files\":%d,\"blocking_calls\":%d,\"clock_calls\":%d}\n", len(siteTable), mapRanges, len(files), blockingCalls, clockCalls)
+	fmt.Printf("{\"sites\":%d,\"map_ranges\":%d,\"files\":%d,\"blocking_calls\":%d,\"clock_calls\":%d,\"work_sites\":%d}\n", len(siteTable), mapRanges, len(files), blockingCalls, clockCalls, workSites)
 }
 
 func recvName(e ast.Expr) string {
@@ -357,6 +363,192 @@ func rewriteBlockingCall(fi *fileInfo, call *ast.CallExpr, info *types.Info, off
 	}
 }
 
+// workCost returns a Go expression for the number of bytes the statement hands to bulk
+// primitives – the builtin copy and append(x, y...), the functions of packages bytes and
+// strings, conversions between string and []byte, string concatenation – or "" if there are
+// none. A statement is one unit of simulated time; the bytes it moves or scans inside the
+// runtime and the standard library are charged on top (verifsim.W: 32 bytes a unit), so that
+// work which is quadratic only there (an in-place edit that shifts the tail for every escape,
+// a string grown by += in a loop) is not invisible to the time bound.
+// Only operands that are safe to evaluate a second time are charged (no calls), only when
+// everything they mention is declared before the statement, and never operands that the
+// statement itself evaluates conditionally (right of && / ||).
+func workCost(fi *fileInfo, s ast.Stmt, info *types.Info, offOf func(token.Pos) int) string {
+	var roots, direct []ast.Expr
+	switch x := s.(type) {
+	case *ast.ExprStmt:
+		roots = append(roots, x.X)
+	case *ast.AssignStmt:
+		roots = append(roots, x.Rhs...)
+		if x.Tok == token.ADD_ASSIGN && len(x.Lhs) == 1 && isBytesLike(info, x.Lhs[0]) {
+			// s += t copies s
+			direct = append(direct, x.Lhs[0], x.Rhs[0])
+		}
+	case *ast.ReturnStmt:
+		roots = append(roots, x.Results...)
+	case *ast.IfStmt:
+		if x.Init == nil {
+			roots = append(roots, x.Cond)
+		}
+	case *ast.DeclStmt:
+		if gd, ok := x.Decl.(*ast.GenDecl); ok {
+			for _, sp := range gd.Specs {
+				if vs, ok := sp.(*ast.ValueSpec); ok {
+					roots = append(roots, vs.Values...)
+				}
+			}
+		}
+	default:
+		return ""
+	}
+	text := func(e ast.Expr) string { return string(fi.src[offOf(e.Pos()):offOf(e.End())]) }
+	var safe func(e ast.Expr) bool
+	safe = func(e ast.Expr) bool {
+		switch x := e.(type) {
+		case *ast.Ident:
+			if x.Name == "_" {
+				return false
+			}
+			obj := info.Uses[x]
+			if obj == nil {
+				return false
+			}
+			// declared before the statement, or at package level / universe
+			if obj.Pkg() == nil || !obj.Pos().IsValid() {
+				return true // universe (nil, true, …)
+			}
+			return obj.Pos() < s.Pos() || obj.Parent() == obj.Pkg().Scope()
+		case *ast.BasicLit:
+			return true
+		case *ast.ParenExpr:
+			return safe(x.X)
+		case *ast.SelectorExpr:
+			if id, ok := x.X.(*ast.Ident); ok {
+				if _, isPkg := info.Uses[id].(*types.PkgName); isPkg {
+					return false
+				}
+			}
+			if sel, ok := info.Selections[x]; !ok || sel.Kind() != types.FieldVal {
+				return false
+			}
+			return safe(x.X)
+		case *ast.StarExpr:
+			return safe(x.X)
+		case *ast.UnaryExpr:
+			return x.Op != token.ARROW && x.Op != token.AND && safe(x.X)
+		case *ast.BinaryExpr:
+			return x.Op != token.LAND && x.Op != token.LOR && safe(x.X) && safe(x.Y)
+		case *ast.IndexExpr:
+			return safe(x.X) && safe(x.Index)
+		case *ast.SliceExpr:
+			return safe(x.X) && (x.Low == nil || safe(x.Low)) && (x.High == nil || safe(x.High)) && (x.Max == nil || safe(x.Max))
+		case *ast.CallExpr:
+			if id, ok := x.Fun.(*ast.Ident); ok && (id.Name == "len" || id.Name == "cap") && len(x.Args) == 1 {
+				if _, isBuiltin := info.Uses[id].(*types.Builtin); isBuiltin {
+					return safe(x.Args[0])
+				}
+			}
+			return false
+		}
+		return false
+	}
+	var terms []string
+	charge := func(e ast.Expr) {
+		if isBytesLike(info, e) && safe(e) && len(terms) < 6 {
+			terms = append(terms, "len("+text(e)+")")
+		}
+	}
+	var visit func(e ast.Expr)
+	visit = func(e ast.Expr) {
+		ast.Inspect(e, func(n ast.Node) bool {
+			switch x := n.(type) {
+			case *ast.FuncLit:
+				return false
+			case *ast.BinaryExpr:
+				if x.Op == token.LAND || x.Op == token.LOR {
+					visit(x.X) // the right operand is evaluated conditionally
+					return false
+				}
+				if x.Op == token.ADD && isBytesLike(info, x) {
+					charge(x.X)
+					charge(x.Y)
+				}
+			case *ast.CallExpr:
+				switch f := x.Fun.(type) {
+				case *ast.Ident:
+					if b, ok := info.Uses[f].(*types.Builtin); ok {
+						switch b.Name() {
+						case "copy":
+							if len(x.Args) == 2 {
+								charge(x.Args[1])
+							}
+						case "append":
+							if x.Ellipsis.IsValid() && len(x.Args) == 2 {
+								charge(x.Args[1])
+							}
+						}
+					}
+				case *ast.SelectorExpr:
+					if id, ok := f.X.(*ast.Ident); ok {
+						// (only functions that pass over their whole input whatever it holds: a search may stop
+						// at the first byte, and charging it in full would make a linear scan loop look quadratic)
+						if pn, ok := info.Uses[id].(*types.PkgName); ok && (pn.Imported().Path() == "bytes" || pn.Imported().Path() == "strings") && fullPass[f.Sel.Name] {
+							for _, a := range x.Args {
+								charge(a)
+							}
+						}
+					}
+				}
+				// a conversion between string and []byte copies its operand
+				if tv, ok := info.Types[x.Fun]; ok && tv.IsType() && len(x.Args) == 1 && isBytesLike(info, x) && isBytesLike(info, x.Args[0]) && isString(info, x) != isString(info, x.Args[0]) {
+					charge(x.Args[0])
+				}
+			}
+			return true
+		})
+	}
+	for _, d := range direct {
+		charge(d)
+	}
+	for _, r := range roots {
+		if r != nil && r.Pos().IsValid() {
+			visit(r)
+		}
+	}
+	return strings.Join(terms, "+")
+}
+
+// fullPass: functions of packages bytes and strings whose cost is their input's length whatever it holds.
+var fullPass = map[string]bool{"ReplaceAll": true, "ToLower": true, "ToUpper": true, "ToTitle": true, "ToValidUTF8": true, "Clone": true, "Join": true, "Repeat": true,
+	"Map": true, "Count": true, "Split": true, "SplitN": false, "Fields": true, "Title": true, "Runes": true, "TrimSpace": false}
+
+// isString: the expression's type is a string type.
+func isString(info *types.Info, e ast.Expr) bool {
+	tv, ok := info.Types[e]
+	if !ok || tv.Type == nil {
+		return false
+	}
+	b, ok := tv.Type.Underlying().(*types.Basic)
+	return ok && b.Info()&types.IsString != 0
+}
+
+// isBytesLike: the expression is a string or a []byte.
+func isBytesLike(info *types.Info, e ast.Expr) bool {
+	tv, ok := info.Types[e]
+	if !ok || tv.Type == nil {
+		return false
+	}
+	switch u := tv.Type.Underlying().(type) {
+	case *types.Basic:
+		return u.Info()&types.IsString != 0
+	case *types.Slice:
+		if b, ok := u.Elem().Underlying().(*types.Basic); ok {
+			return b.Kind() == types.Byte || b.Kind() == types.Uint8
+		}
+	}
+	return false
+}
+
 // rewriteClockCall puts the library's clock behind the simulator: time.Now(),
 // time.Since(t), time.Until(t) and time.Sleep(d) become verifsim.Now() etc.,
 // which read (or advance) the simulated clock when the simulator has set one.
@@ -414,6 +606,17 @@ import (
 
 // Hook is set by the simulator before a run starts and cleared after it.
 var Hook func(uint32)
+
+// WorkHook receives the number of bytes a statement hands to bulk primitives (copy, append,
+// bytes.*, strings.*, conversions, concatenation): work done outside the instrumented statements.
+var WorkHook func(int)
+
+// W charges n bytes of bulk work to simulated time.
+func W(n int) {
+	if h := WorkHook; h != nil {
+		h(n)
+	}
+}
 
 // ClockHook is the simulated clock (nil: the real one). Every time.Now /
 // time.Since / time.Until of the library reads it, time.Sleep advances it.
